@@ -69,8 +69,15 @@ let () =
         if m = hex then Printf.printf "OK %s\n" id
         else Printf.printf "MISMATCH %s ADTSHeader.Encode model=%s\n" id m
       | ["HD"; id; hex; obs] ->
-        let m = adts_obs (decode_adts (bytes_of_hex hex)) in
-        if m = obs then Printf.printf "OK %s\n" id
+        let data = bytes_of_hex hex in
+        let r = decode_adts data in
+        let m = adts_obs r in
+        (* a reported offset must be the position of the first sync word of the naive scan *)
+        let first_ok = match r with
+          | Ok (_, off) -> (match first_sync data with Some p -> int_of_nat p = int_of_z off | None -> false)
+          | _ -> true in
+        if m = obs && first_ok then Printf.printf "OK %s\n" id
+        else if not first_ok then Printf.printf "MISMATCH %s DecodeADTSHeader offset-is-not-the-first-sync model=%s\n" id m
         else Printf.printf "MISMATCH %s DecodeADTSHeader model=%s\n" id m
       | ["HX"; id; ot; sfi; ch; bf; lo; hi; hash] ->
         let lo = int_of_string lo and hi = int_of_string hi in
